@@ -33,8 +33,10 @@ def check(run):
     run.need(len(classes) >= 5, f"only {len(classes)} concrete storages discovered (expected >= 5)")
     fifo_root = prog.find_class(FIFO_ROOT)
     run.need(fifo_root is not None, "anchor class IntervalStorage vanished")
+    from .common import ctor_wiring
     for cls in classes:
         _storage(run, prog, cls, fifo_root in prog.mro(cls))
+        ctor_wiring(run, prog, cls, "CTOR")         # capacity / store_targets as configured
 
 
 def _storage(run, prog, cls, fifo):
